@@ -46,7 +46,8 @@ def main():
             meta["ran"].append({"cmd": "pytest -q (patched worktree)", "exit": rc,
                                 "tail": out.strip().splitlines()[-1:]})
             meta["suite_passes_with_patch"] = rc == 0
-            env = dict(os.environ, HGXVERIF_REPO=wt, PYTHONHASHSEED="0", VERIF_SEED="1")
+            env = dict(os.environ, HGXVERIF_REPO=wt, PYTHONHASHSEED="0", VERIF_SEED="1",
+                       HGXVERIF_EVIDENCE_DIR="/var/tmp/hgxverif_scratch_evidence")
             t0 = time.time()
             rc, out = sh(["/venv/bin/python", "-m", "hgxverif.run", pid, "--tier", "quick"], cwd=V, env=env)
             lines = [l.strip() for l in out.splitlines() if l.strip().startswith("clause")]
